@@ -56,7 +56,7 @@ def make_sigs(t, N, Loh=4, rich=False, junk=True, gpg_only=False):
 
 def build(eng, ns, N=2, M=2, Loh=4, rich=False, junk=True, any_args=False, thr_kinds=('int', 'bool', 'float'), modes=(True, False), payload=None):
     t = T(eng, ns=ns)
-    payload = payload if payload is not None else t.payload('payload', dict)
+    payload = payload(t) if callable(payload) else (payload if payload is not None else t.payload('payload', dict))
     sigs, real = make_sigs(t, N, Loh, rich, junk)
     env = {'signatures': sigs, 'signed': payload}
     signable = env
